@@ -16,6 +16,7 @@ package main
 
 import (
 	"bytes"
+	"errors"
 	"encoding/json"
 	"fmt"
 	"os"
@@ -187,7 +188,7 @@ func canon(t, v string) []string {
 		return []string{v}
 	}
 	out := []string{v}
-	if f, err := strconv.ParseFloat(v, 64); err == nil {
+	if f, err := strconv.ParseFloat(v, 64); err == nil || errors.Is(err, strconv.ErrRange) { // out of range reads as +-Inf / 0
 		out = append(out, strconv.FormatFloat(f, 'f', 2, 64), strconv.FormatFloat(f, 'f', -1, 64), strconv.FormatFloat(f, 'g', -1, 64))
 	}
 	return out
